@@ -76,13 +76,26 @@ Theorem C11_documented_order : documented_order_check = true.
 Proof. exact documented_order. Qed.
 Print Assumptions C11_documented_order.
 
+(* every choice of additional parentheses is harmless, except around closures and map pairs (which
+   are not expressions) and around an identifier whose NilSafe flag is set (known finding below):
+   the decidable carve-out is `no_parens_allowed` of Parse/Printer.v *)
+Theorem C11_any_parentheses : forall (o : oracles) (fmt_int : Z -> string) (fmt_float : PrimFloat.float -> string) (c : poracle) (t : expr),
+  printable gen_grammar fmt_int fmt_float o no_extra t ->
+  (forall path x, node_at t path = Some x -> no_parens_allowed x = true -> c path = O) ->
+  parse gen_grammar o (print_any gen_grammar fmt_int fmt_float c t) = ROk t.
+Proof. exact roundtrip_any_parens_gen. Qed.
+Print Assumptions C11_any_parentheses.
+
 (* ---- 4. what is NOT true of the pinned tree (known finding C11-paren-nilsafe-ident).
-   Full statement: every additional pair of parentheses is harmless whenever the tree is printable
-   with the required ones only. *)
+   Full statement: additional parentheses around ANY expression node are harmless whenever the tree
+   is printable with the required ones only (closures and map pairs are not expressions). *)
+Definition not_an_expression (x : expr) : bool :=
+  match x with EClosure _ _ | EPair _ _ _ => true | _ => false end.
+
 Definition C11_full_statement : Prop :=
   forall (o : oracles) (fmt_int : Z -> string) (fmt_float : PrimFloat.float -> string) (c : poracle) (t : expr),
     printable gen_grammar fmt_int fmt_float o no_extra t ->
-    (forall path, (c path <= 1)%nat) ->
+    (forall path x, node_at t path = Some x -> not_an_expression x = true -> c path = O) ->
     parse gen_grammar o (print_any gen_grammar fmt_int fmt_float c t) = ROk t.
 
 Definition o_none : oracles := mkOracles (fun _ => None) (fun _ => true).
@@ -96,8 +109,8 @@ Proof.
   assert (P : printable gen_grammar dec (fun _ => "") o_none no_extra nilsafe_witness).
   { vm_compute. repeat split; try reflexivity; intros; discriminate. }
   specialize (H o_none dec (fun _ => "") paren_base nilsafe_witness P).
-  assert (B : forall path, (paren_base path <= 1)%nat).
-  { intros [|[|i] [|j r]]; cbn; auto. }
+  assert (B : forall path x, node_at nilsafe_witness path = Some x -> not_an_expression x = true -> paren_base path = O).
+  { intros [|[|i] [|j r]] x N E; cbn in N; inversion N; subst; try discriminate E; reflexivity. }
   specialize (H B). vm_compute in H. discriminate H.
 Qed.
 Print Assumptions C11_full_statement_refuted.
@@ -143,6 +156,16 @@ Example C11_roundtrip_nonvacuous_any : printable gen_grammar dec ex_fmt_float ex
 Proof.
   vm_compute. repeat split; try reflexivity; intros; try discriminate; try congruence;
     match goal with H : Some _ = Some _ |- _ => injection H as <-; reflexivity end.
+Qed.
+
+Example C11_any_parentheses_nonvacuous :
+  forall path x, node_at ex_tree path = Some x -> no_parens_allowed x = true -> ex_parens path = O.
+Proof.
+  intros path x N E.
+  assert (D : ex_parens path = O \/ In path [[]; [O]; [O; O]; [2%nat; 1%nat; 0%nat]; [1%nat; 0%nat]]).
+  { unfold ex_parens. destruct path as [|[|[|[|a]]] [|[|[|b]] [|[|c] [|e r]]]]; cbn; tauto. }
+  destruct D as [D|D]; [exact D|]. cbn in D.
+  repeat (destruct D as [D|D]; [subst path; vm_compute in N; inversion N; subst x; discriminate E|]). contradiction.
 Qed.
 
 (* what the two printings look like *)
